@@ -64,10 +64,13 @@ class Story:
                     fs.daemon.mempool.append(t)
         elif kind == 'force_reorg':
             fs.bp.force_chain_reorg(ev[1])
+        elif kind == 'force_flush':
+            # what check_cache_size_loop does under cache pressure
+            fs.bp.force_flush_arg = ev[1]
         elif kind == 'mp_add':
             name, n_ins, outs = ev[1], ev[2], ev[3]
             parents = [self.mp[p] for p in (ev[4] if len(ev) > 4 else [])]
-            rt = sim.prepare_tx(name, n_ins, outs, self.main, parents)
+            rt = sim.prepare_tx(name, n_ins, outs, self.main, parents, only_parents=bool(parents))
             self.mp[name] = rt
             fs.add_mempool_tx(rt)
         elif kind == 'mp_evict':
@@ -140,6 +143,8 @@ class Story:
             fs.sched.permanent = [('shutdown', fs.shutdown, True)]
         if not shape.get('explore_startup', False):
             fs.sched.deviations = 0        # start-up is not part of the explored window
+        for (prefix, nth), inner in shape.get('startup_triggers', []):
+            fs.sched.triggers.append([prefix, nth, lambda inner=inner: self.apply(inner)])
         fs.start()
         fs.quiesce()
         if fs.stopped:
